@@ -119,6 +119,17 @@ func VF_C01_api() {
 		Services:   map[string]input.Service{"svc": svc, "dep": {Todo: &yes}},
 		Decorators: []input.Decorator{{Tag: "t", Decorator: "pkg.Decorate", Args: []any{"@dep"}}},
 	}
+	// import forms: "pkg" is either the import path itself or an alias of
+	// meta.imports for a longer path (then used several times: value, type,
+	// !value argument, decorator); a second service adds a quoted full path
+	switch vfChoice("imports", 3) {
+	case 1:
+		in.Meta.Imports = map[string]string{"pkg": "example.com/some/pkg"}
+	case 2:
+		in.Meta.Imports = map[string]string{"pkg": "example.com/some/pkg"}
+		ot := `*"example.com/other/pkg".Y`
+		in.Services["other"] = input.Service{Type: &ot, Tags: []input.Tag{{Name: "other"}}}
+	}
 	em, text, ok := vfGenerate(in, vfBool("stub"))
 	vfAssert(ok, "a valid configuration is accepted")
 	if ok {
